@@ -37,6 +37,8 @@ func init() {
 		"fmt.Fprintf":                   extFprintf,
 		"io.WriteString":                extIOWriteString,
 		"io.Copy":                       extIOCopy,
+		"os.Open":                       extOSOpen,
+		"(*os.File).Close":              extFileClose,
 		"errors.New":                    extNewError,
 		"fmt.Errorf":                    extNewError,
 		"math.Floor":                    extFloorCeil(true),
@@ -569,4 +571,29 @@ func extIOCopy(fr *frame, st *state, c *ssa.CallCommon, args []string, pos token
 	fc.hset(st, "X|wafterfail|Bool", or(fc.hget(st, "X|wafterfail|Bool"), oldFail))
 	fc.hset(st, wf, or(oldFail, fmt.Sprintf("(not (= (vtag %s) 0))", errv)))
 	return []string{n, errv}
+}
+
+
+// os.Open / (*os.File).Close: the ghost counter openfiles() is the number of files this process holds open on behalf
+// of the code under verification (C19). Open adds one exactly when it succeeds; Close takes one away.
+func extOSOpen(fr *frame, st *state, c *ssa.CallCommon, args []string, pos token.Pos) []string {
+	fc := fr.fc
+	sc := fc.sc
+	errv := sc.declare("openerr", "Val")
+	sc.assume(fmt.Sprintf("(and (>= (vtag %s) 0) (=> (= (vtag %s) 0) (= (vpay %s) 0)))", errv, errv, errv))
+	ref := fr.freshRef(st, "file")
+	f := sc.define("file", "Int", fmt.Sprintf("(ite (= (vtag %s) 0) %s 0)", errv, ref))
+	k := "X|openfiles|Int"
+	fc.hset(st, k, fmt.Sprintf("(ite (= (vtag %s) 0) (+ %s 1) %s)", errv, fc.hget(st, k), fc.hget(st, k)))
+	return []string{f, errv}
+}
+
+func extFileClose(fr *frame, st *state, c *ssa.CallCommon, args []string, pos token.Pos) []string {
+	fc := fr.fc
+	sc := fc.sc
+	errv := sc.declare("closeerr", "Val")
+	sc.assume(fmt.Sprintf("(>= (vtag %s) 0)", errv))
+	k := "X|openfiles|Int"
+	fc.hset(st, k, fmt.Sprintf("(- %s 1)", fc.hget(st, k)))
+	return []string{errv}
 }
